@@ -237,6 +237,16 @@ def getattrW (W : World V) (x name : OVal V) : M V (OVal V) :=
     | x => getattr x n
   | _ => throw .typeError
 
+/-- `getattr(x, name, default)` -/
+def getattrD (W : World V) (x name dflt : OVal V) : M V (OVal V) :=
+  match name with
+  | .str n => match x with
+    | .obj _ attrs => pure ((lookupAttr n attrs).getD dflt)
+    | .cls k => pure ((W.clsAttr k n).getD dflt)
+    | .val _ => W.ext "getattr" [x, name, dflt]        -- an abstract value: the world's
+    | _ => pure dflt
+  | _ => throw .typeError
+
 /-! ### numbers -/
 
 def add (a b : OVal V) : M V (OVal V) :=
@@ -458,6 +468,12 @@ def dictUpdate (d other : OVal V) : M V (OVal V) :=
   match d, other with
   | .dict kvs, .dict more => do pure (.dict (← updKeys kvs more))
   | _, _ => throw (.unmodelled ".update on a non-dict")
+
+/-- `d.items()`: the pairs, as tuples -/
+def dictItems (d : OVal V) : M V (OVal V) :=
+  match d with
+  | .dict kvs => pure (.seq .list (kvs.map fun p => .seq .tuple [p.1, p.2]))
+  | _ => throw (.unmodelled ".items on a non-dict")
 
 /-- `d.clear()`: the new (empty) dict -/
 def dictClear (d : OVal V) : M V (OVal V) :=
